@@ -1,4 +1,155 @@
-From Coq Require Import NArith List Bool.
-Require Import Webob.Lib.Val Webob.Model.C11_etag.
-Theorem C11_placeholder : True. Proof. exact I. Qed.
-Print Assumptions C11_placeholder.
+(* C11 — property theorems only.  The model (Model/C11_etag.v) is instantiated with the pattern
+   parameters REGENERATED from the live webob patterns (Gen/C11_rx.v); Spec/C11_taglist.v says what
+   an RFC 7232 entity-tag list is.  Each theorem is closed by [exact] of a lemma of Proofs/C11_etag.v. *)
+From Coq Require Import NArith ZArith List Bool.
+Require Import Webob.Lib.Val Webob.Lib.Rx Webob.Gen.C11_rx Webob.Model.C11_etag Webob.Spec.C11_taglist
+               Webob.Proofs.C11_etag.
+Import ListNotations.
+Local Open Scope N_scope.
+
+(* the list scanner (the pattern ETagMatcher.parse runs findall with) reads back exactly the tags
+   a list was rendered from: every tag text without a DQUOTE (commas, spaces, backslashes, any code
+   point), every OWS-comma-OWS separator spelling incl. empty elements, any weak/strong mix, optional
+   leading and trailing commas / whitespace *)
+Theorem C11_scan_render : forall lead first rest trail,
+  wf_list lead first rest trail ->
+  findall lst_cfg (render lead first rest trail) = tags_of first rest.
+Proof. exact scan_render. Qed.
+Print Assumptions C11_scan_render.
+
+(* the hypotheses are satisfiable by the inputs the pinned tree got wrong:
+   DQ a backslash DQ , W/ DQ b DQ   (no whitespace after the comma, first tag ends in a backslash) *)
+Example C11_wf_example :
+  wf_list [] (false, [97; 92]) [([44], (true, [98])); ([32; 44; 9], (false, [44; 32]))] [44].
+Proof.
+  assert (Hc : ows_comma 44) by (right; right; reflexivity).
+  assert (Hs : ows_comma 32) by (left; reflexivity).
+  assert (Ht : ows_comma 9) by (right; left; reflexivity).
+  unfold wf_list, filler, separator, tag_ok, tags_of. cbn [map snd fst].
+  split; [apply Forall_nil |].
+  split; [apply Forall_cons; [exact Hc | apply Forall_nil] |].
+  split.
+  - apply Forall_cons; [| apply Forall_cons; [| apply Forall_nil]]; cbn [fst]; split.
+    + apply Forall_cons; [exact Hc | apply Forall_nil].
+    + left. reflexivity.
+    + repeat (apply Forall_cons; [assumption |]). apply Forall_nil.
+    + right. left. reflexivity.
+  - repeat (apply Forall_cons; [cbn; intros H; repeat (destruct H as [H | H]; [discriminate |]); exact H |]).
+    apply Forall_nil.
+Qed.
+
+(* `tag in request.if_none_match` is true exactly for the listed tags, `tag in request.if_match`
+   exactly for the listed STRONG tags *)
+Theorem C11_membership : forall lead first rest trail p,
+  wf_list lead first rest trail ->
+  let v := Some (render lead first rest trail) in
+  (contains (if_none_match v) (Some p) = true <-> In p (all_tags (tags_of first rest))) /\
+  (contains (if_match v) (Some p) = true <-> In p (strong_tags (tags_of first rest))).
+Proof. exact membership. Qed.
+Print Assumptions C11_membership.
+
+Theorem C11_membership_none : forall lead first rest trail,
+  wf_list lead first rest trail ->
+  let v := Some (render lead first rest trail) in
+  contains (if_none_match v) None = false /\ contains (if_match v) None = false.
+Proof. exact membership_none. Qed.
+Print Assumptions C11_membership_none.
+
+(* absent (or empty) If-Match matches everything, absent If-None-Match nothing, STAR everything *)
+Theorem C11_star_absent : forall p,
+  contains (if_match None) p = true /\ contains (if_match (Some [])) p = true /\
+  contains (if_none_match None) p = false /\ contains (if_none_match (Some [])) p = false /\
+  contains (if_match (Some STAR)) p = true /\ contains (if_none_match (Some STAR)) p = true.
+Proof. exact star_absent. Qed.
+Print Assumptions C11_star_absent.
+
+(* If-Range carrying a tag: matches exactly the responses whose strong ETag equals it (a weak tag in
+   If-Range matches none); for every external date parser pd *)
+Theorem C11_if_range_tag : forall (pd : str -> option Z) w t etag_hdr lm_hdr, tag_ok t ->
+  exists b, if_range_contains pd (if_range_parse pd (Some (render_tag (w, t)))) etag_hdr lm_hdr = Some b /\
+            (b = true <-> w = false /\ get_etag_strong etag_hdr = Some t).
+Proof. exact if_range_tag. Qed.
+Print Assumptions C11_if_range_tag.
+
+(* If-Range carrying a date (a value ending in SP GMT that parse_date understands): matches iff the
+   response has a Last-Modified that is not later *)
+Theorem C11_if_range_date : forall (pd : str -> option Z) v d etag_hdr,
+  ends_with_s GMT v = true -> pd v = Some d ->
+  (forall lm l, lm <> [] -> pd lm = Some l ->
+     if_range_contains pd (if_range_parse pd (Some v)) etag_hdr (Some lm) = Some (Z.leb l d)) /\
+  if_range_contains pd (if_range_parse pd (Some v)) etag_hdr None = Some false.
+Proof. exact if_range_date. Qed.
+Print Assumptions C11_if_range_date.
+
+Example C11_if_range_date_example : ends_with_s GMT [49; 32; 71; 77; 84] = true.
+Proof. reflexivity. Qed.
+
+Theorem C11_if_range_absent : forall (pd : str -> option Z) etag_hdr lm_hdr,
+  if_range_contains pd (if_range_parse pd None) etag_hdr lm_hdr = Some true /\
+  if_range_contains pd (if_range_parse pd (Some [])) etag_hdr lm_hdr = Some true.
+Proof. exact if_range_absent. Qed.
+Print Assumptions C11_if_range_absent.
+
+(* Response.etag = v  /  Response.etag = (v, strong)  for any v without DQUOTE (and without CR/LF,
+   which the header setter refuses): the stored header is exactly one quoted entity-tag, W/-prefixed
+   iff not strong; .etag reads back v; .etag_strong is v iff strong *)
+Theorem C11_etag_response_roundtrip : forall a,
+  tag_ok (arg_value a) -> no_crlf (arg_value a) ->
+  let h := render_tag (negb (arg_strong a), arg_value a) in
+  set_etag a = Some h /\
+  get_etag (Some h) = Some (arg_value a) /\
+  get_etag_strong (Some h) = (if arg_strong a then Some (arg_value a) else None).
+Proof. exact etag_response_roundtrip. Qed.
+Print Assumptions C11_etag_response_roundtrip.
+
+(* a value that ends in a backslash satisfies the hypotheses (the response-side pattern has the
+   backslash-DQUOTE alternative and must backtrack out of it) *)
+Example C11_roundtrip_example : tag_ok [97; 44; 32; 92] /\ no_crlf [97; 44; 32; 92].
+Proof. unfold tag_ok, no_crlf. cbn. intuition discriminate. Qed.
+
+Theorem C11_etag_set_refuses_crlf : forall a,
+  tag_ok (arg_value a) -> (In 10 (arg_value a) \/ In 13 (arg_value a)) -> set_etag a = None.
+Proof. exact etag_set_refuses_crlf. Qed.
+Print Assumptions C11_etag_set_refuses_crlf.
+
+(* the emitted header, scanned as a list, is exactly one entity-tag *)
+Theorem C11_header_is_one_tag : forall a,
+  tag_ok (arg_value a) ->
+  findall lst_cfg (render_tag (negb (arg_strong a), arg_value a)) = [(negb (arg_strong a), arg_value a)].
+Proof. exact header_is_one_tag. Qed.
+Print Assumptions C11_header_is_one_tag.
+
+(* the response's entity-tag echoed by a client anywhere inside a well-formed list: If-None-Match
+   matches; If-Match matches when the ETag is strong and does not when it is only listed weak;
+   echoed alone as If-Range it matches that response iff strong *)
+Theorem C11_echo_matches : forall (pd : str -> option Z) a lead first rest trail lm_hdr,
+  tag_ok (arg_value a) -> no_crlf (arg_value a) ->
+  wf_list lead first rest trail ->
+  let me := (negb (arg_strong a), arg_value a) in
+  let h := Some (render_tag me) in
+  In me (tags_of first rest) ->
+  let v := Some (render lead first rest trail) in
+  contains (if_none_match v) (get_etag h) = true /\
+  (arg_strong a = true -> contains (if_match v) (get_etag h) = true) /\
+  (~ In (false, arg_value a) (tags_of first rest) -> contains (if_match v) (get_etag h) = false) /\
+  if_range_contains pd (if_range_parse pd h) h lm_hdr = Some (arg_strong a).
+Proof. exact echo_matches. Qed.
+Print Assumptions C11_echo_matches.
+
+(* malformed values: the getters always answer with a matcher; when the scanner finds no tag, the
+   whole value is the single tag *)
+Theorem C11_getter_total : forall value,
+  (if_match value = MAny \/ exists l, if_match value = MTags l) /\
+  (if_none_match value = MNo \/ if_none_match value = MAny \/ exists l, if_none_match value = MTags l).
+Proof. exact getter_total. Qed.
+Print Assumptions C11_getter_total.
+
+Theorem C11_getter_malformed : forall v,
+  v <> [] -> v <> STAR -> findall lst_cfg v = [] ->
+  if_match (Some v) = MTags [v] /\ if_none_match (Some v) = MTags [v].
+Proof. exact getter_malformed. Qed.
+Print Assumptions C11_getter_malformed.
+
+Example C11_getter_malformed_example :
+  [97; 44; 32; 98] <> [] /\ [97; 44; 32; 98] <> STAR /\ findall lst_cfg [97; 44; 32; 98] = [].
+Proof. repeat split; try discriminate. Qed.
